@@ -721,7 +721,24 @@ func (o *c20Barrier) Close() {}
 
 var c20BarrierOnce sync.Once
 
+// c20Stuck counts consecutive cases in which a run loop never reached the barrier; after a few
+// of them the remaining cases fail fast.
+var c20Stuck int
+
 func c20ExecSuper(raw json.RawMessage) interface{} {
+	if c20Stuck >= 3 {
+		return c20Obs{Steps: []c20Step{}, Err: "run loops stuck in the previous cases"}
+	}
+	o := c20ExecSuper1(raw)
+	if ob, ok := o.(c20Obs); ok && ob.Err != "" {
+		c20Stuck++
+	} else {
+		c20Stuck = 0
+	}
+	return o
+}
+
+func c20ExecSuper1(raw json.RawMessage) interface{} {
 	c20Register()
 	c20BarrierOnce.Do(func() { Register(&c20Barrier{}) })
 	var in c20Input
@@ -774,13 +791,13 @@ func c20ExecSuper(raw json.RawMessage) interface{} {
 		cfg[prefix+"zbarrier"] = fmt.Sprintf("name: zbarrier\nkind: VerifBarrier\nbody: %d\n", barrier)
 		select {
 		case syncCh <- cfg:
-		case <-time.After(20 * time.Second):
+		case <-time.After(8 * time.Second):
 			obs.Err = "registry run loop does not take the snapshot"
 			return obs
 		}
 		select {
 		case <-c20BarrierCh:
-		case <-time.After(20 * time.Second):
+		case <-time.After(8 * time.Second):
 			obs.Err = "supervisor run loop did not reach the barrier"
 			return obs
 		}
